@@ -6,6 +6,7 @@ import copy
 from dataclasses import dataclass, field
 import datetime
 import enum
+import io
 import logging
 import re
 import traceback
@@ -291,6 +292,16 @@ class CoseSecOpCtx:
         # Encoded security source EID
         ssrc_fld, ssrc_val = self.sec_blk.payload.getfield_and_val('source')
         self.ssrc_enc = cbor2.dumps(ssrc_fld.i2m(self.sec_blk.payload, ssrc_val))
+        if getattr(self.sec_blk, 'wire_data', None) is not None:
+            # a received block is bound by the octets that were received,
+            # not by a re-encoding of the decoded (and normalized) EID
+            with io.BytesIO(self.sec_blk.getfieldval('btsd')) as buf:
+                dec = cbor2.CBORDecoder(buf)
+                for _ix in range(3):
+                    dec.decode()
+                start = buf.tell()
+                dec.decode()
+                self.ssrc_enc = buf.getvalue()[start:buf.tell()]
 
         self.addl_protected = b''
         addl_unprotected = b''
@@ -341,8 +352,12 @@ class CoseSecOpCtx:
 
             if is_primary:
                 if flags & CoseContext.AadScopeFlag.METADATA:
-                    blk.update_crc()
-                    aad_data += bytes(blk)
+                    if getattr(blk, 'wire_data', None) is not None:
+                        # as received
+                        aad_data += blk.wire_data
+                    else:
+                        blk.update_crc()
+                        aad_data += bytes(blk)
 
             else:
                 if flags & CoseContext.AadScopeFlag.METADATA:
